@@ -437,6 +437,8 @@ int KSI_TlvElement_appendElement(KSI_TlvElement *parent, KSI_TlvElement *child) 
 		goto cleanup;
 	}
 
+	parent->ftlv.dat_len += child->ftlv.hdr_len + child->ftlv.dat_len;
+
 	res = KSI_OK;
 
 cleanup:
@@ -474,7 +476,6 @@ int KSI_TlvElement_setElement(KSI_TlvElement *parent, KSI_TlvElement *child) {
 		case 0: /* Add a new value. */
 			res = KSI_TlvElement_appendElement(parent, child);
 			if (res != KSI_OK) goto cleanup;
-			parent->ftlv.dat_len += child->ftlv.hdr_len + child->ftlv.dat_len;
 			break;
 		case 1: /* Replace the existing value. */
 			res = KSI_TlvElementList_elementAt(fc.result, 0, &ptr);
